@@ -4,6 +4,7 @@ package props
 
 import (
 	"encoding/binary"
+	"sort"
 	"strconv"
 	"strings"
 
@@ -33,6 +34,11 @@ func init() {
 		{"A", proto.L([]string{"/a#b/:id"}), proto.L([]string{"/a"})},
 		{"A", proto.L(nil), proto.L([]string{"/a"})},
 		{"A", proto.L([]string{"/a"}), proto.L([]string{"/a", "/b"})},
+		// widening: a key given twice (one node, the later record's), the empty key, a placeholder
+		// as the first byte of a key, a path that is a proper prefix of a key
+		{"A", proto.L([]string{"/:a", "/s", "/:a", "/s"}), proto.L([]string{"/s", "/t"})},
+		{"A", proto.L([]string{"", ":x/:y", "*w/:z"}), proto.L([]string{"", "q/r", "q"})},
+		{"A", proto.L([]string{"/a/:x/b", "/a/:x", "/a/:x/bc/*w"}), proto.L([]string{"/a/1/", "/a/1/b", "/a/1/bc", "/a/1/bc/"})},
 	}})
 }
 
@@ -58,11 +64,21 @@ func c05daLookup(rt *denco.Router, path string) (out string) {
 func c05daExec(in []string) []string {
 	keys := proto.UnL(in[1])
 	paths := proto.UnL(in[2])
+	// choices the line protocol does not carry come from a checksum of the line (see c05Mix)
+	mix := c05Mix(in)
 	recs := make([]denco.Record, len(keys))
 	for i, k := range keys {
-		recs[i] = denco.NewRecord(k, i)
+		if mix&1 == 1 {
+			recs[i] = denco.Record{Key: k, Value: i}
+		} else {
+			recs[i] = denco.NewRecord(k, i)
+		}
 	}
 	rt := denco.New()
+	// SizeHint (capacity of the parameter slice only, no part of the arrays) preset for half of the cases
+	if mix>>1&1 == 1 {
+		rt.SizeHint = []int{0, 1, 2, 50}[mix>>2&3]
+	}
 	if err := rt.Build(recs); err != nil {
 		switch {
 		case strings.Contains(err.Error(), "duplicated"):
@@ -77,6 +93,24 @@ func c05daExec(in []string) []string {
 			return []string{"E", "unsorted"}
 		}
 		return []string{"E", proto.B(err.Error())}
+	}
+	// A built Router is immutable: the arrays are read before the lookups or (every other case) after
+	// them, and for a quarter of the cases every path has been looked up once before (the answers
+	// overwritten by the caller, who owns them).
+	if mix>>4&3 == 0 {
+		for _, p := range paths {
+			func() {
+				defer func() { _ = recover() }() // the reported lookup of this path will say P
+				_, ps, _ := rt.Lookup(p)
+				c05Scribble(ps)
+			}()
+		}
+	}
+	var results []string
+	if mix>>6&1 == 1 {
+		for _, p := range paths {
+			results = append(results, c05daLookup(rt, p))
+		}
 	}
 	bc, nodes := rt.VerifDump()
 	raw := make([]byte, 4*len(bc))
@@ -98,6 +132,9 @@ func c05daExec(in []string) []string {
 		nd[i] = sb.String()
 	}
 	out := []string{"D", proto.B(string(raw)), proto.L(nd)}
+	if mix>>6&1 == 1 {
+		return append(out, results...)
+	}
 	for _, p := range paths {
 		out = append(out, c05daLookup(rt, p))
 	}
@@ -124,6 +161,9 @@ func c05daKey(r *proto.Rng, alphabet string, weird bool) string {
 	}
 	if r.Chance(1, 2) {
 		sb.WriteString(r.Bytes(alphabet, 1+r.Intn(2)))
+	} else if r.Chance(1, 25) {
+		// the first byte of a key may be a placeholder (a name of its own: no duplicate)
+		sb.WriteString(r.Pick(":h", "*h", "=:h", ":"))
 	}
 	for i := 0; i < n; i++ {
 		sb.WriteByte('/')
@@ -171,6 +211,8 @@ func c05daGen(r *proto.Rng, n int, tier string, emit func(in ...string)) {
 		}
 		if tier == "thorough" && r.Chance(1, 50) {
 			nk = 200 + r.Intn(400)
+		} else if tier != "thorough" && r.Chance(1, 300) {
+			nk = 100 + r.Intn(150) // some large tables in the quick tier too
 		}
 		alphabet := c05daAlphabets[r.Intn(len(c05daAlphabets))]
 		weird := r.Chance(1, 15)
@@ -187,13 +229,29 @@ func c05daGen(r *proto.Rng, n int, tier string, emit func(in ...string)) {
 			if !weird && c05DupNames(k) {
 				continue
 			}
+			if r.Chance(1, 25) && len(keys) > 0 {
+				// the same key again under another value, or a proper prefix of a key as a key, or the empty key
+				k = keys[r.Intn(len(keys))]
+				if r.Chance(1, 3) {
+					k = k[:r.Intn(len(k)+1)]
+				}
+			}
 			keys = append(keys, k)
+		}
+		if r.Chance(1, 20) {
+			// insertion orders a random draw hardly gives: ascending, descending
+			sort.Strings(keys)
+			if r.Chance(1, 2) {
+				for a, b := 0, len(keys)-1; a < b; a, b = a+1, b-1 {
+					keys[a], keys[b] = keys[b], keys[a]
+				}
+			}
 		}
 		np := 2 + r.Intn(5)
 		paths := make([]string, 0, np)
 		for j := 0; j < np; j++ {
 			var p string
-			switch r.Intn(8) {
+			switch r.Intn(9) {
 			case 0, 1, 2, 3:
 				p = c05Inst(r, keys[r.Intn(len(keys))])
 			case 4:
@@ -208,6 +266,11 @@ func c05daGen(r *proto.Rng, n int, tier string, emit func(in ...string)) {
 				p = keys[r.Intn(len(keys))]
 			case 6:
 				p = r.Bytes(alphabet+"/:*#=\x00", r.Intn(8))
+			case 7:
+				// a path that stops short (a proper prefix of an instantiation): the look for the
+				// termination edge starts from an inner element
+				p = c05Inst(r, keys[r.Intn(len(keys))])
+				p = p[:r.Intn(len(p)+1)]
 			default:
 				p = "/" + r.Bytes(alphabet+"/", r.Intn(6))
 			}
